@@ -2,6 +2,8 @@
 //! C38 (protobuf decoder), C34 (tensor file formats), C21 (external data),
 //! C05 (model loading).
 
+mod c21;
+mod c34;
 mod c38;
 mod drv;
 mod gens;
@@ -19,12 +21,16 @@ fn main() {
     if let Some(w) = vp_core::isolate::worker_name() {
         match w.as_str() {
             "c38" => c38::worker(),
+            "c34" => c34::worker(),
+            "c21" => c21::worker(),
             _ => vp_core::machinery_error("unknown worker"),
         }
     }
     let prop = std::env::args().nth(1).unwrap_or_default();
     match prop.as_str() {
         "C38" => c38::run(vp_core::Ctx::from_env("C38")),
+        "C34" => c34::run(vp_core::Ctx::from_env("C34")),
+        "C21" => c21::run(vp_core::Ctx::from_env("C21")),
         _ => vp_core::machinery_error("unknown property (mc-bytes serves C38 C34 C21 C05)"),
     }
 }
